@@ -391,6 +391,16 @@ theorem Headers.get_set_same (h : Headers) (n n' v : Bytes) (ok : h.Ok) (hn : ie
     obtain ⟨k, hk, _⟩ := mapFind_set_same h.map n v
     rw [hk]
 
+/-- a non-empty value needs no assumption on the map -/
+theorem Headers.get_set_nonempty (h : Headers) (n n' v : Bytes) (hv : v.isEmpty = false) (hn : ieq n n' = true) :
+    (h.set n v).get n' = v := by
+  have e : h.set n v = { h with map := mapSet n v h.map } := by unfold Headers.set; rw [if_neg (by rw [hv]; exact Bool.false_ne_true)]
+  rw [e]
+  show (match mapFind n' (mapSet n v h.map) with | some (_, v) => v | none => []) = v
+  rw [← mapFind_congr _ n n' hn]
+  obtain ⟨k, hk, _⟩ := mapFind_set_same h.map n v
+  rw [hk]
+
 /-- setting one header does not disturb another -/
 theorem Headers.get_set_other (h : Headers) (n n' v : Bytes) (hn : ieq n n' = false) : (h.set n v).get n' = h.get n' := by
   by_cases hv : v.isEmpty = true
